@@ -80,6 +80,10 @@ def _candidate_names(ctx: Ctx, fn: FuncInfo) -> Set[str]:
     cls = ctx.repo.require_class("JSONPatch")
     nodes: List[ast.AST] = [fn.node]
     nodes.extend(s for s in cls.node.body if isinstance(s, (ast.Assign, ast.AnnAssign)))
+    # module-level tables the loader consults, and the names of the operation classes themselves
+    used = {n.id for n in ast.walk(fn.node) if isinstance(n, ast.Name)}
+    nodes.extend(v for k, v in fn.module.assigns.items() if k in used)
+    lits |= {op_name(ctx, c) for c in op_classes(ctx)}
     for root in nodes:
         for n in ast.walk(root):
             if isinstance(n, ast.Constant) and isinstance(n.value, str) and n.value.isidentifier() and len(n.value) <= 16:  # noqa: PLR2004
